@@ -75,6 +75,25 @@ func (w *World) reopenResized(rs resizeSpec) bool {
 				w.violate("resize-limit", "resize-limit:faulty-open", "Open (resize) hit an injected I/O fault and returned a File whose allocator limit is %d pages, expected %d", got, rs.NewPages)
 				return false
 			}
+			// the File that Open returned must be fully usable, whatever the
+			// (optional) maintenance transaction ran into: contents == model,
+			// allocator bookkeeping consistent, allocation until the file is full
+			// in a transaction that is rolled back
+			w.F = f
+			snap := f.VerifSnapshot()
+			w.LastTxid = snap.Headers[snap.MetaActive].Txid
+			if !w.checkQuiescent("open (resize, faulty)") {
+				return false
+			}
+			if rs.NewPages > 0 {
+				if _, ok := w.Probe(); !ok {
+					return false
+				}
+			} else if !w.Begin(txfile.TxOptions{}) || !w.Alloc(3, 1) || !w.End(ORollback) {
+				return false
+			}
+			w.Res.Add("faulty_resize_open_file_used", 1)
+			w.F = nil
 			if w.guard("File.Close", func() { err = f.Close() }) {
 				return false
 			}
@@ -226,6 +245,54 @@ func runResizeCase(c *core.Case) *core.Result {
 			}
 		}
 		w.NoCoverage = true
+	}
+	if shrinking := rs.NewPages > 0 && (rs.OldPages == 0 || rs.NewPages < rs.OldPages); shrinking && rs.Fault != nil {
+		// make the optional release transaction of the shrinking Open run (the one
+		// the fault is aimed at): the file must end in a free region that lies
+		// past the new limit. Allocate pages from the end of the file until it
+		// extends beyond the new limit, commit, free them again, commit.
+		var tail []txfile.PageID
+		for round := 0; round < 40; round++ {
+			if int(w.F.VerifSnapshot().DataEnd) > rs.NewPages+8 {
+				break
+			}
+			if !w.Begin(txfile.TxOptions{}) {
+				return finish()
+			}
+			before := len(w.txOrder)
+			if !w.Alloc(8, 1) {
+				return finish()
+			}
+			got := append([]txfile.PageID(nil), w.txOrder[before:]...)
+			if !w.End(OCommit) {
+				return finish()
+			}
+			if len(got) == 0 {
+				break
+			}
+			end := w.F.VerifSnapshot().DataEnd
+			for _, id := range got {
+				if _, live := w.Committed.Pages[id]; live && int(id) >= rs.NewPages && id+16 >= end {
+					tail = append(tail, id)
+				}
+			}
+		}
+		if len(tail) > 0 {
+			if !w.Begin(txfile.TxOptions{}) {
+				return finish()
+			}
+			for _, id := range tail {
+				if _, live := w.Committed.Pages[id]; live {
+					if !w.Free(id) {
+						return finish()
+					}
+				}
+			}
+			if !w.End(OCommit) {
+				return finish()
+			}
+			res.Add("shrink_fault_cases_with_free_tail", 1)
+		}
 	}
 	liveBefore := len(w.Committed.Pages)
 	extentBefore := w.Disk.MaxExtent
